@@ -27,7 +27,15 @@ func zzSmallSchema() Schema {
 		"f": &Field{Type: Float, Args: FieldConfigArgument{"x": &ArgumentConfig{Type: Float}},
 			Resolve: func(p ResolveParams) (interface{}, error) { return p.Args["x"], nil }},
 	}})
-	s, err := NewSchema(SchemaConfig{Query: q})
+	sub := NewObject(ObjectConfig{Name: "S", Fields: Fields{
+		"a": &Field{Type: String,
+			Subscribe: func(p ResolveParams) (interface{}, error) { return "ev", nil },
+			Resolve:   func(p ResolveParams) (interface{}, error) { return "x", nil }},
+		"o": &Field{Type: obj,
+			Subscribe: func(p ResolveParams) (interface{}, error) { return "ev", nil },
+			Resolve:   func(p ResolveParams) (interface{}, error) { return 1, nil }},
+	}})
+	s, err := NewSchema(SchemaConfig{Query: q, Subscription: sub})
 	if err != nil {
 		panic(err)
 	}
@@ -241,6 +249,11 @@ var zzNasty = []string{
 	"{ o{a}{a} }",
 	"query($a:Int){ b(a:$a) b(a:1) }",
 	"query($x:Float){ f(x:$x) }",
+	"subscription{ ...F } fragment F on S{ a ...F }",
+	"subscription{ ...F } fragment F on S{ a ... on S{ ...F } }",
+	"subscription{ ...F } fragment F on S{ ... { ...G } } fragment G on S{ a ... on S{ ... { ...F } } }",
+	"subscription{ o{ ...H } } fragment H on O{ a ... on O{ ...H } }",
+	"subscription{ a @skip(if:true) }",
 }
 
 // ZZ_C09_unvalidated: parsed but unvalidated documents handed directly to
